@@ -747,3 +747,124 @@ func Or2(fs ...func(ssa.Value) bool) func(ssa.Value) bool {
 		return false
 	}
 }
+
+// ---- position-based parameter anchors (robust against renaming) ----
+
+// ParamAt matches the i-th parameter of fn (the receiver is index 0 for
+// methods), looking through conversions and spill slots.
+func ParamAt(fn *ssa.Function, i int) func(ssa.Value) bool {
+	return func(v ssa.Value) bool {
+		if fn == nil || i < 0 || i >= len(fn.Params) {
+			return false
+		}
+		p, ok := Strip(Forward(Strip(v))).(*ssa.Parameter)
+		return ok && p == fn.Params[i]
+	}
+}
+
+// captureRoot resolves a free variable to what it captures in the enclosing
+// functions: a parameter, or the local variable's allocation.
+func captureRoot(fv *ssa.FreeVar) (param *ssa.Parameter, local *ssa.Alloc) {
+	c := fv.Parent()
+	for depth := 0; depth < 6 && c != nil && c.Parent() != nil; depth++ {
+		idx := -1
+		for k, x := range c.FreeVars {
+			if x == fv {
+				idx = k
+			}
+		}
+		if idx < 0 {
+			return nil, nil
+		}
+		par := c.Parent()
+		var binding ssa.Value
+		for _, b := range par.Blocks {
+			for _, in := range b.Instrs {
+				if mc, ok := in.(*ssa.MakeClosure); ok && mc.Fn == c && idx < len(mc.Bindings) {
+					binding = mc.Bindings[idx]
+				}
+			}
+		}
+		switch x := binding.(type) {
+		case *ssa.Parameter:
+			return x, nil
+		case *ssa.Alloc:
+			for _, r := range *x.Referrers() {
+				if st, ok := r.(*ssa.Store); ok && st.Addr == x {
+					if p, ok := st.Val.(*ssa.Parameter); ok {
+						return p, nil
+					}
+				}
+			}
+			return nil, x
+		case *ssa.FreeVar:
+			fv, c = x, par
+			continue
+		default:
+			return nil, nil
+		}
+	}
+	return nil, nil
+}
+
+func freeVarOf(v ssa.Value) *ssa.FreeVar {
+	v = Strip(v)
+	if u, ok := v.(*ssa.UnOp); ok && u.Op == token.MUL {
+		v = u.X
+	}
+	fv, _ := v.(*ssa.FreeVar)
+	return fv
+}
+
+// CapturedParam matches (a load of) a free variable that captures the i-th
+// parameter of root, at any closure nesting depth.
+func CapturedParam(root *ssa.Function, i int) func(ssa.Value) bool {
+	return func(v ssa.Value) bool {
+		fv := freeVarOf(v)
+		if fv == nil || root == nil || i >= len(root.Params) {
+			return false
+		}
+		p, _ := captureRoot(fv)
+		return p != nil && p == root.Params[i]
+	}
+}
+
+// ParamOrCaptured matches the i-th parameter of root, directly or as captured by a closure.
+func ParamOrCaptured(root *ssa.Function, i int) func(ssa.Value) bool {
+	return Or2(ParamAt(root, i), CapturedParam(root, i))
+}
+
+// CapturedLocal matches (a load of) a free variable capturing a local variable
+// of an enclosing function some store to which satisfies pred.
+func CapturedLocal(pred func(stored ssa.Value) bool) func(ssa.Value) bool {
+	return func(v ssa.Value) bool {
+		fv := freeVarOf(v)
+		if fv == nil {
+			return false
+		}
+		_, al := captureRoot(fv)
+		if al == nil {
+			return false
+		}
+		for _, r := range *al.Referrers() {
+			if st, ok := r.(*ssa.Store); ok && st.Addr == al && pred(st.Val) {
+				return true
+			}
+		}
+		return false
+	}
+}
+
+// ParamIndexName names a parameter "p<i>" by its position (receiver = p0 for methods); "" for other values.
+func ParamIndexName(v ssa.Value) string {
+	p, ok := v.(*ssa.Parameter)
+	if !ok || p.Parent() == nil {
+		return ""
+	}
+	for i, q := range p.Parent().Params {
+		if q == p {
+			return fmt.Sprintf("p%d", i)
+		}
+	}
+	return ""
+}
